@@ -122,12 +122,14 @@ bool BlockFilterIndex::CustomInit(const std::optional<interfaces::BlockRef>& blo
     }
 
     if (block) {
-        auto op_last_header = ReadFilterHeader(block->height, block->hash);
-        if (!op_last_header) {
+        // The height index may already hold a block of another branch (index ahead of its locator after an
+        // unclean shutdown); the entry of the locator's block is then in the hash index, as for lookups.
+        DBVal entry;
+        if (!index_util::LookUpOne(*m_db, *block, entry)) {
             LogError("Cannot read last block filter header; index may be corrupted");
             return false;
         }
-        m_last_header = *op_last_header;
+        m_last_header = entry.header;
     }
 
     return true;
